@@ -462,7 +462,7 @@ def c09_registry(stream, res, impl):
             t = op.split()
             if len(t) < 2:
                 continue
-            if t[0] == "case":
+            if t[0] == "case" or t[1] == "start":
                 reg, refusing = {}, set()
             elif t[1] == "hostconn" and out == "ok":
                 reg[t[3]] = t[2]
@@ -472,8 +472,15 @@ def c09_registry(stream, res, impl):
                 refusing.discard(t[2])
                 for h in [h for h, c in reg.items() if c == t[2]]:
                     del reg[h]
+            elif t[1] == "peer" and len(t) > 2:
+                # a request for a given number of hosts: the pool's pick is its own, only the counts are prescribed
+                kv = _kv(out)
+                if out.startswith("ok") and (int(kv.get("nwl", "0")) > len(reg) or int(kv.get("nhosts", "0")) > len(reg)):
+                    return "%d hosts have a live connection; the pool called %s connections and named %s hosts" % (len(reg), kv.get("nwl"), kv.get("nhosts"))
             elif t[1] == "peer":
                 kv = _kv(out)
+                if out.startswith("err client-refused") or out.startswith("err not-running"):
+                    continue
                 wl = sorted(x for x in kv.get("wl", "").split(",") if x)
                 hosts = sorted(x for x in kv.get("hosts", "").split(",") if x)
                 acked = sorted(h for h, c in reg.items() if c not in refusing)
@@ -899,3 +906,56 @@ def c08_c09(stream, res, impl):
     if stream["component"] == "poolbin":
         return c09_registry(stream, res, impl)
     return c08_acknowledged(stream, res, impl)
+
+
+_UNITS = {"wei": 1, "kwei": 10**3, "babbage": 10**3, "mwei": 10**6, "lovelace": 10**6, "gwei": 10**9, "shannon": 10**9,
+          "microether": 10**12, "szabo": 10**12, "milliether": 10**15, "finney": 10**15, "ether": 10**18, "eth": 10**18}
+
+
+def _ether_flag(tok):
+    """the amount in wei an operator means by a flag value like `5_gwei` (None: not an amount)"""
+    from fractions import Fraction
+    v = tok.replace("_", " ").strip()
+    m = re.match(r"^(-?\d+(?:\.\d+)?)\s*([A-Za-z]*)$", v)
+    if not m:
+        return None
+    unit = m.group(2).lower()
+    if unit == "":
+        return int(m.group(1)) if "." not in m.group(1) else None
+    if unit not in _UNITS:
+        return None
+    return (Fraction(m.group(1)) * _UNITS[unit]).__floor__()
+
+
+def c03_binary(stream, res, impl):
+    """the built pool binary: the minimum balance and the price the operator configured decide who is admitted and
+    whether keep-alives are billable"""
+    if stream["component"] != "poolbin":
+        return c03_cutoff(stream, res, impl)
+    minb, price, flagmin = None, None, ""
+    for op, out in zip(res, impl):
+        t = op.split()
+        if len(t) < 2:
+            continue
+        if t[0] == "case":
+            minb, price = None, None
+        if t[1] == "start" and out == "ok":
+            kv = _kv(op)
+            flagmin = kv.get("min", "")
+            minb = None if kv.get("min") == "off" else _ether_flag(kv.get("min", ""))
+            price = _ether_flag(kv.get("price", ""))
+        elif t[1] == "client" and minb is not None:
+            # a fresh light client has a balance of 0
+            if minb > 0 and out == "ok":
+                return "minimum balance configured as `%s` (= %d wei): a client with balance 0 was admitted" % (flagmin, minb)
+            if minb <= 0 and out.startswith("err LowBalance"):
+                return "minimum balance %d wei: a client with balance 0 was refused (%s)" % (minb, out)
+        elif t[1] == "kalive" and price is not None and price > 0 and out.startswith("err InvalidSettings"):
+            return "price configured as %d wei per minute, yet the client's keep-alive is refused as `invalid interval settings` (the price was read as 0)" % price
+    return None
+
+
+def c02_binary(stream, res, impl):
+    if stream["component"] == "poolbin":
+        return c03_binary(stream, res, impl)
+    return c02_billing(stream, res, impl)
